@@ -91,7 +91,7 @@ extern int w_side;          // 0 parent, 1 lib child
 
 // scheduler callbacks (virtual clock engines)
 extern int64_t (*w_sched_next)(void);       // time of next event or INT64_MAX
-extern void (*w_sched_run)(int64_t upto);   // run every event with t <= upto
+extern int (*w_sched_run)(int64_t upto);    // run every event with t <= upto; returns progress made
 extern void (*w_on_hang)(const char *what); // must not return
 // kill reaction: return 1 if the wrapper should forward the signal itself now
 extern int (*w_on_kill)(int pid, int sig);
